@@ -132,27 +132,30 @@ impl Report {
                 .iter()
                 .find(|k| k.property == self.property && k.status == "open" && &k.key == key);
             finding_summaries.push(json!({"key": key, "detail": f.detail, "count": f.count, "known": listed.is_some()}));
+            let fname = format!(
+                "{}-{:016x}.json",
+                self.property,
+                crate::mc::hash64(&key.as_str())
+            );
+            let path = replay_dir.join(&fname);
+            let body = json!({
+                "property": self.property,
+                "key": key,
+                "detail": f.detail,
+                "occurrences": f.count,
+                "replay": f.replay,
+            });
+            let _ = std::fs::write(&path, serde_json::to_string_pretty(&body).unwrap());
             if let Some(k) = listed {
                 lines.push(format!(
-                    "KNOWN-FINDING: property={} {} [key={}]",
-                    self.property, k.what, key
+                    "KNOWN-FINDING: property={} {} [key={}] replay={}",
+                    self.property,
+                    k.what,
+                    key,
+                    path.display()
                 ));
             } else {
                 unlisted += 1;
-                let fname = format!(
-                    "{}-{:016x}.json",
-                    self.property,
-                    crate::mc::hash64(&key.as_str())
-                );
-                let path = replay_dir.join(&fname);
-                let body = json!({
-                    "property": self.property,
-                    "key": key,
-                    "detail": f.detail,
-                    "occurrences": f.count,
-                    "replay": f.replay,
-                });
-                let _ = std::fs::write(&path, serde_json::to_string_pretty(&body).unwrap());
                 lines.push(format!(
                     "VIOLATION property={} replay={}",
                     self.property,
